@@ -39,7 +39,7 @@ def cases(draw, tier="quick"):
     syns = [s for r in recs for s in r["prefix_synonyms"]]
     known = canon + syns
     unknown = ["zz", "yy", "n0", "n1", "n2"]
-    shape = draw(st.sampled_from(["free", "free", "free", "chain", "partial-chain", "swap"]))
+    shape = draw(st.sampled_from(["free", "free", "free", "chain", "partial-chain", "swap", "inconsistent"]))
     mapping: list[list[str]] = []
     if shape == "free":
         keys = draw(st.lists(st.sampled_from(known + unknown[:2]), unique=True, min_size=1, max_size=4))
@@ -67,6 +67,15 @@ def cases(draw, tier="quick"):
         for a, b in zip(nodes, nodes[1:]):
             if a != b and a not in [m[0] for m in mapping]:
                 mapping.append([a, b])
+    elif shape == "inconsistent":
+        # one record referred to by two different strings: once as a key, once as the value of another pair
+        r = draw(st.sampled_from(recs))
+        names = prefixes_of(r)
+        k1 = draw(st.sampled_from(names))
+        others = [x for x in known if x not in names] or ["zz"]
+        k2 = draw(st.sampled_from(others))
+        v2 = draw(st.sampled_from([x for x in names if x != k1] or names))
+        mapping = [[k1, draw(st.sampled_from(["m0", "m1"]))], [k2, v2]]
     else:
         if len(known) >= 2:
             a, b = draw(st.sampled_from(known)), draw(st.sampled_from(known))
